@@ -1,0 +1,115 @@
+//go:build verif
+
+package fileops
+
+import (
+	"io"
+	"os"
+	"sync/atomic"
+)
+
+// VerifMutation describes one mutation of a file of the local file system in enough detail to
+// replay it (or a prefix of it) on a copy: where a write goes and which bytes it carries.
+type VerifMutation struct {
+	Op   string // "create" (OpenFile with O_CREATE on a path that does not exist), "write", "truncate", "remove"
+	Path string
+	Off  int64  // write: position of the descriptor before the write
+	Data []byte // write: the bytes; valid only during the call
+	Size int64  // truncate: the new size
+}
+
+// VerifIOObserver is told about every such mutation issued through the local VFS, before it is
+// issued.  It exists only in builds with the `verif` tag; a test harness uses it to keep a shadow
+// of a directory and to build the images a crash would leave behind after (a prefix of) every
+// mutation.  Independent of VerifObserver (verif_hook.go): both can be installed.
+type VerifIOObserver interface {
+	BeforeMutation(m VerifMutation)
+}
+
+type verifIOBox struct{ o VerifIOObserver }
+
+var verifIOObserver atomic.Value // holds *verifIOBox
+var verifIOInner VFS
+
+// SetVerifIOObserver installs (or, with nil, removes) the observer.  The local VFS is wrapped
+// on first use and stays wrapped; without an observer the wrapper only forwards.
+func SetVerifIOObserver(o VerifIOObserver) {
+	if verifIOInner == nil {
+		verifIOInner = localFS
+		localFS = &verifIOFS{VFS: verifIOInner}
+	}
+	verifIOObserver.Store(&verifIOBox{o: o})
+}
+
+func verifIOObs() VerifIOObserver {
+	if b, ok := verifIOObserver.Load().(*verifIOBox); ok {
+		return b.o
+	}
+	return nil
+}
+
+type verifIOFS struct{ VFS }
+
+func (v *verifIOFS) OpenFile(name string, flag int, perm os.FileMode, opt ...FSOption) (File, error) {
+	if o := verifIOObs(); o != nil {
+		if flag&os.O_CREATE != 0 {
+			if _, err := os.Stat(name); os.IsNotExist(err) {
+				o.BeforeMutation(VerifMutation{Op: "create", Path: name})
+			}
+		}
+		if flag&os.O_TRUNC != 0 {
+			o.BeforeMutation(VerifMutation{Op: "truncate", Path: name})
+		}
+	}
+	f, err := v.VFS.OpenFile(name, flag, perm, opt...)
+	if err != nil || f == nil {
+		return f, err
+	}
+	return &verifIOFile{File: f, append: flag&os.O_APPEND != 0}, nil
+}
+
+func (v *verifIOFS) Remove(name string, opt ...FSOption) error {
+	if o := verifIOObs(); o != nil {
+		o.BeforeMutation(VerifMutation{Op: "remove", Path: name})
+	}
+	return v.VFS.Remove(name, opt...)
+}
+
+func (v *verifIOFS) RemoveLocal(name string, opt ...FSOption) error {
+	if o := verifIOObs(); o != nil {
+		o.BeforeMutation(VerifMutation{Op: "remove", Path: name})
+	}
+	return v.VFS.RemoveLocal(name, opt...)
+}
+
+func (v *verifIOFS) Truncate(name string, size int64, opt ...FSOption) error {
+	if o := verifIOObs(); o != nil {
+		o.BeforeMutation(VerifMutation{Op: "truncate", Path: name, Size: size})
+	}
+	return v.VFS.Truncate(name, size, opt...)
+}
+
+type verifIOFile struct {
+	File
+	append bool
+}
+
+func (f *verifIOFile) Write(b []byte) (int, error) {
+	if o := verifIOObs(); o != nil {
+		var off int64
+		if f.append {
+			off, _ = f.File.Size()
+		} else {
+			off, _ = f.File.Seek(0, io.SeekCurrent)
+		}
+		o.BeforeMutation(VerifMutation{Op: "write", Path: f.File.Name(), Off: off, Data: b})
+	}
+	return f.File.Write(b)
+}
+
+func (f *verifIOFile) Truncate(size int64) error {
+	if o := verifIOObs(); o != nil {
+		o.BeforeMutation(VerifMutation{Op: "truncate", Path: f.File.Name(), Size: size})
+	}
+	return f.File.Truncate(size)
+}
